@@ -29,8 +29,13 @@ ROWS = [None, None, 1, 10, 1000, 1000, 100000, 1000000]
 
 def gen_case(rng, tier, idx):
     base = c01.gen_case(rng, tier, 0)
-    while int(np.prod(base['shape'])) > 4096:
+    loopy = rng.rand() < 0.3   # models whose triangulation adds fill-in edges, where a wrong conditioning set shows
+    while int(np.prod(base['shape'])) > 4096 or (loopy and not (base['cls'] in ('cycle', 'grid') and len(base['attrs']) >= 4
+                                                                  and min(base['shape']) >= 2)):
         base = c01.gen_case(rng, tier, 0)
+    if loopy and base['scale'] < 1.0:
+        base['pots'] = [(s_, a * (1.0 / base['scale'])) for s_, a in base['pots']]
+        base['scale'] = 1.0
     if base['scale'] > 10:
         f = float(gen.pick(rng, [1.0, 3.0])) / base['scale']
         base['pots'] = [(s, np.where(np.isfinite(a), a * f, a)) for s, a in base['pots']]
@@ -39,6 +44,9 @@ def gen_case(rng, tier, idx):
     rows = gen.pick(rng, ROWS)
     if rows is not None and rows >= 100000 and idx % 2 != 0:
         rows = 1000  # keep half of the cases cheap; a sampling-size error only shows against the bound at large row counts
+    if loopy:
+        rows = int(gen.pick(rng, [20000, 100000]))
+        base['scale'] = max(base['scale'], 1.0)
     base.update(kind='synthetic', rows=rows, method=gen.pick(rng, ['round', 'round', 'sample']), data_seed=int(rng.randint(2 ** 31)))
     return base
 
